@@ -162,3 +162,39 @@ def integrate_2d(gammas_pos, spectra, dist, theta, exterior=True, both_lethal=Tr
             inner = inner + S2[-1, -1] * c_dd
             total += c_dd
     return theta * inner.reshape(shp), total, wbl
+
+
+def quad_budget_2d(gammas_pos, dist, pdf_func, params):
+    """Quadrature error of the documented procedure for the out-of-range masses, in units of total weight. The edge and corner
+    masses are obtained by adaptive quadrature of the pdf with requested tolerances (epsabs=1e-4, epsrel=1e-3) on semi-infinite
+    ranges, and what scipy achieves there can be far from what was requested (measured: 14% on a heavy-tailed corner). The same
+    quadratures (same integrand pdf_func(x, y, params), limits and tolerances) are carried out here and compared with the exact
+    cdf masses. A wrong limit, a missing term, a wrong weight or spectrum is not part of this budget."""
+    import scipy.integrate
+    g = np.asarray(gammas_pos, float)
+    params = np.asarray(params, float)
+    gmin, gmax = g[0], g[-1]
+    m1, m2 = dist.marg1(g), dist.marg2(g)
+    exact = dict(w2_neu=m1 * dist.cond2_cdf(gmin, g), w2_del=m1 * (1 - dist.cond2_cdf(gmax, g)),
+                 w1_neu=m2 * dist.cond1_cdf(gmin, g), w1_del=m2 * (1 - dist.cond1_cdf(gmax, g)))
+    err = {k: np.zeros(len(g)) for k in exact}
+    kw = dict(epsabs=1e-4, epsrel=1e-3)
+    with np.errstate(all='ignore'):
+        for i, gi in enumerate(g):
+            f2 = lambda y: pdf_func(gi, y, params)
+            err['w2_neu'][i] = abs(scipy.integrate.quad(f2, 0, gmin, **kw)[0] - exact['w2_neu'][i])
+            err['w2_del'][i] = abs(scipy.integrate.quad(f2, gmax, np.inf, **kw)[0] - exact['w2_del'][i])
+            err['w1_neu'][i] = abs(scipy.integrate.quad(pdf_func, 0, gmin, args=(gi, params), **kw)[0] - exact['w1_neu'][i])
+            err['w1_del'][i] = abs(scipy.integrate.quad(pdf_func, gmax, np.inf, args=(gi, params), **kw)[0] - exact['w1_del'][i])
+        edges = float(sum(_trapz(e, g) for e in err.values()))
+        lims = [((0, gmin, 0, gmin), dist.joint_cdf(gmin, gmin)),
+                ((0, gmin, gmax, np.inf), dist.cdf1(gmin) - dist.joint_cdf(gmin, gmax)),
+                ((gmax, np.inf, 0, gmin), dist.cdf2(gmin) - dist.joint_cdf(gmax, gmin)),
+                ((gmax, np.inf, gmax, np.inf), 1 - dist.cdf1(gmax) - dist.cdf2(gmax) + dist.joint_cdf(gmax, gmax))]
+        corners = 0.0
+        for (a, b, c, d), ex in lims:
+            # dblquad(f, a, b, gfun, hfun): outer variable (second argument of f) runs over [a, b]
+            for outer, inner in (((a, b), (c, d)), ((c, d), (a, b))):
+                w = scipy.integrate.dblquad(pdf_func, outer[0], outer[1], lambda _: inner[0], lambda _: inner[1], args=[params], **kw)[0]
+                corners = max(corners, 0.0) + 0.5 * abs(w - ex)
+    return edges + corners
